@@ -22,16 +22,16 @@ def sig_set_y_normaliser(f):
 
 
 def sig_evidence_offset(f):
-    """finding (d) seen through the evidence: log-integral − Σ predictive = N (Dy − Dx)/2 · ln 2π"""
+    """finding (d) seen through product() / the evidence: deviation = N (Dy − Dx)/2 · ln 2π"""
     p = f.get("params", {})
-    if not all(k in p for k in ("Dx", "Dy", "N")) or p["Dx"] == p["Dy"]:
+    if not all(k in p for k in ("Dx", "Dy", "Nsum")) or p["Dx"] == p["Dy"]:
         return False
-    return _dev_close(f.get("deviation"), 0.5 * p["N"] * (p["Dy"] - p["Dx"]) * LOG2PI)
+    return _dev_close(f.get("deviation"), 0.5 * p["Nsum"] * (p["Dy"] - p["Dx"]) * LOG2PI)
 
 
 SIGNATURES = {
     "set_y-normaliser-uses-Dx": (("set_y",), sig_set_y_normaliser),
-    "evidence-offset-from-set_y": (("evidence",), sig_evidence_offset),
+    "evidence-offset-from-set_y": (("set_y", "evidence"), sig_evidence_offset),
 }
 
 
